@@ -169,6 +169,9 @@ G7_contain = [
     r('Polygon2D.is_point_inside_bound_rect', [POLY2, P2, V2], name='Polygon2D_is_point_inside_bound_rect'),
     r('Polygon2D.is_point_on_edge', [POLY2, P2, Q], name='Polygon2D_is_point_on_edge'),
     r('Polygon2D.point_relationship', [POLY2, P2, Q], name='Polygon2D_point_relationship'),
+    r('Polygon2D.distance_to_point', [POLY2, P2], name='Polygon2D_distance_to_point'),
+    r('Polygon2D.distance_from_edge_to_point', [POLY2, P2], name='Polygon2D_distance_from_edge_to_point'),
+    r('LineSegment2D.distance_to_point', [SEG2, P2], name='LineSegment2D_distance_to_point'),
 ]
 LAYERS.append(('G7_contain', G7_contain))
 
